@@ -284,6 +284,40 @@ def run(ctx):
                                            kind='FOLD-EFFECT', source=MIXED_PRE + 'empty @is_you() { write(%s); }' % hid(e, False if form == 'lit' else 'const'),
                                            twin=MIXED_PRE + 'empty @is_you() { write(%s); }' % hid(e, True), args=[],
                                            config=dict(w=w, stack=100, unchecked=False), constant_form=suites.describe(ra), runtime_form=suites.describe(rb_)))
+    # (4) literals the typechecker could pre-evaluate *around* observable elements: `.length`, indexing and truth of array
+    # literals whose elements call, print or fault; string literal lookups - written form vs the same through a variable
+    spre = 'int g = 0;\nint f(int x) { write(\'<\'); write(x); write(\'>\'); g += 1; return x; }\n'
+    spairs = [('writeln([f(7), 2, f(9)].length); writeln(g);', 'int[] a = [f(7), 2, f(9)]; writeln(a.length); writeln(g);'),
+              ('int z = 0; writeln([10 / z, 2].length); writeln("u");', 'int z = 0; int[] a = [10 / z, 2]; writeln(a.length); writeln("u");'),
+              ('writeln([f(1), f(2)][1]); writeln(g);', 'int[] a = [f(1), f(2)]; writeln(a[1]); writeln(g);'),
+              ('writeln([f(1)] is bool); writeln(g);', 'int[] a = [f(1)]; writeln(a is bool); writeln(g);'),
+              ('if ([f(3), f(4)].length > 1) { write("T"); } writeln(g);', 'int[] a = [f(3), f(4)]; if (a.length > 1) { write("T"); } writeln(g);'),
+              ('writeln([1, 2, 3].length + [f(4)].length); writeln(g);', 'int[] a = [1, 2, 3]; int[] b = [f(4)]; writeln(a.length + b.length); writeln(g);'),
+              ('int k = 5; writeln([1, 2][k - 5 + f(1)]);', 'int k = 5; int[] a = [1, 2]; writeln(a[k - 5 + f(1)]);'),
+              ('writeln("abc".length); writeln("abc"[1] is int); writeln("" is bool);', 'string s = "abc"; string e = ""; int k = 1; writeln(s.length); writeln(s[k] is int); writeln(e is bool);'),
+              ('int k = 3; writeln("abc"[k] is int); writeln("u");', 'int k = 3; string s = "abc"; writeln(s[k] is int); writeln("u");'),
+              ('writeln([f(1), f(2)].length is bool); writeln((not ([f(5)] is bool))); writeln(g);', 'int[] a = [f(1), f(2)]; writeln(a.length is bool); int[] b = [f(5)]; writeln((not (b is bool))); writeln(g);')]
+    sjobs = []
+    for i, (cf, rf) in enumerate(spairs):
+        for w in (2, 4):
+            sjobs.append(('sp%d_w%d_c' % (i, w), spre + 'empty @is_you() { %s }' % cf, [], w, 100, False, 200000))
+            sjobs.append(('sp%d_w%d_r' % (i, w), spre + 'empty @is_you() { %s }' % rf, [], w, 100, False, 200000))
+    scases, srej = suites.compile_cases(sjobs)
+    sres = hidlib.run_parallel([dict(id=c['id'], asm=c['asm'], args=[], fuel=c['fuel']) for c in scases])
+    sdiff = 0
+    for i, (cf, rf) in enumerate(spairs):
+        for w in (2, 4):
+            a, b = sres.get('sp%d_w%d_c' % (i, w)), sres.get('sp%d_w%d_r' % (i, w))
+            if not a or not b or 'vm' not in a or 'vm' not in b or a['vm'].obs() != b['vm'].obs():
+                sdiff += 1
+                if sdiff <= 2:
+                    ctx.violations.append(dict(what='a literal form behaves differently from the same computation through a variable (pre-evaluation is visible)',
+                                               kind='FOLD-EFFECT', source=spre + 'empty @is_you() { %s }' % cf, twin=spre + 'empty @is_you() { %s }' % rf, args=[],
+                                               config=dict(w=w, stack=100, unchecked=False),
+                                               constant_form=suites.describe(a['vm']) if a and 'vm' in a else 'rejected',
+                                               runtime_form=suites.describe(b['vm']) if b and 'vm' in b else 'rejected'))
+    ctx.stats['structured_twins'] = dict(pairs=len(spairs) * 2, differ=sdiff)
+    ctx.say('structured twins: %d pairs, %d differ' % (len(spairs) * 2, sdiff))
     ctx.stats['mixed_twins'] = dict(expressions=len(mmeta), agree=magree, differ=mdiff, constant_form_rejected_or_missing=mskip)
     ctx.say('mixed twins: %d expressions, agree=%d differ=%d skipped=%d' % (len(mmeta), magree, mdiff, mskip))
     agree += magree
